@@ -753,6 +753,10 @@ func c14GenBearer(r *proto.Rng, mask int) *c14Case {
 		if r.Chance(1, 12) {
 			return ""
 		}
+		if r.Chance(1, 10) {
+			// a token that looks like a credential line itself
+			return r.Pick("Bearer x", "bearer y", "Bearer Bearer z", "Basic abc", "Bearer")
+		}
 		if safe {
 			return c14HeaderSafe(r, 1+r.Intn(20))
 		}
